@@ -264,6 +264,7 @@ func runC10(r *Run) {
 			}
 		case 1: // cancelled while blocked
 			p := opPlan{kind: termKind, size: 30000, seed: 5}
+			_ = p
 			var ctx context.Context
 			var cancel context.CancelFunc
 			if termByCancel {
@@ -284,9 +285,14 @@ func runC10(r *Run) {
 			start := r.S.Now()
 			switch termKind {
 			case 0, 1:
-				// nothing (or only the first fragment) arrives
-				if p.seed%2 == 1 || termKind == 1 {
+				// nothing arrives, or only the first fragment, or a frame header
+				// with a proper prefix of its payload
+				switch conc {
+				case 1:
 					peer.Inject(peer.Encode(wsref.Frame{Fin: false, Opcode: wsref.OpBinary, Payload: []byte("first fragment only")}))
+				case 2:
+					b := peer.Encode(wsref.Frame{Fin: true, Opcode: wsref.OpBinary, Payload: Payload{Kind: 2, Len: 300, Seed: 8}.Bytes()})
+					peer.Inject(b[:len(b)-100])
 				}
 				_, _, err = c.Read(ctx)
 			case 2, 3:
